@@ -80,15 +80,18 @@ fn repeat_case() -> impl Strategy<Value = ExecCase> {
     let count = || prop_oneof![Just(i64::MIN), Just(-1i64), Just(0i64), Just(1i64), Just(2i64), Just(3i64), Just(7i64), Just(i64::MAX)];
     let dir = || prop_oneof![4 => Just(1i64), 4 => Just(0i64), 1 => Just(2i64), 1 => Just(-1i64)];
     // nesting 1..4, each level logs its counter
-    let nested = (proptest::collection::vec((count(), dir(), any::<bool>()), 1..5), tags(2)).prop_map(|(levels, tail)| {
+    let nested = (proptest::collection::vec((count(), dir(), any::<bool>()), 1..5), tags(2), prop_oneof![3 => Just(true), 1 => Just(false)]).prop_map(|(levels, tail, body)| {
         let mut prog = Vec::new();
         for (n, d, log) in &levels {
             prog.extend([PUSH(*n), PUSH(*d), REP]);
-            if *log {
+            // `body == false`: completely empty loop bodies (RepeatEnd directly after Repeat)
+            if *log && body {
                 prog.push(REPC);
             }
         }
-        prog.push(PUSH(77));
+        if body {
+            prog.push(PUSH(77));
+        }
         for _ in &levels {
             prog.push(REPE);
         }
